@@ -26,6 +26,7 @@
 #include <sys/select.h>
 #include <sys/syscall.h>
 #include <poll.h>
+#include <sys/uio.h>
 #include <unistd.h>
 #include <fcntl.h>
 #include <errno.h>
@@ -49,7 +50,7 @@ const long long BASE_SEC = 1000000;   // virtual epoch (seconds); the virtual cl
 const int IDLE_MS = 3600000;          // ptime::hours(1): run_one asks for this when it has nothing to do
 const int NFMAX = 8;
 
-struct Op { std::string t; long long a, b; };
+struct Op { std::string t; long long a, b, c; };
 
 struct Case {
 	aio::io_service *srv;
@@ -63,7 +64,7 @@ struct Case {
 	std::vector<std::vector<Op> > phases;
 	std::map<long long, std::vector<Op> > bodies;
 	size_t next_phase;
-	long long vms;
+	long long vms, poll_vms;
 	std::vector<std::string> subs, log;
 	std::set<long long> pending_posts;
 	std::set<std::string> flags;
@@ -78,8 +79,10 @@ struct Case {
 	std::map<long long, int> rawid;
 	std::map<long long, long> raworder;
 	std::set<long long> cancelled, ran;
+	std::set<long long> tgone;   // timers for which cancel was really issued
 	long order;
 	int idx_of_fd[4096];
+	std::vector<char *> bufs;
 } *C = 0;
 
 std::string itos(long long v) { char b[32]; snprintf(b, sizeof(b), "%lld", v); return b; }
@@ -90,6 +93,7 @@ std::string code_name(error_code const &e)
 	if(e.category() == aio::aio_error_cat) {
 		if(e.value() == aio::aio_error::canceled) return "can";
 		if(e.value() == aio::aio_error::select_failed) return "self";
+		if(e.value() == aio::aio_error::eof) return "eof";
 		return "aio" + itos(e.value());
 	}
 	return "sys" + itos(e.value());
@@ -97,7 +101,7 @@ std::string code_name(error_code const &e)
 
 void exec_ops(std::vector<Op> const &ops);
 
-void on_run(long long k, error_code const &e)
+void on_run_s(long long k, std::string const &code)
 {
 	if(C->log.size() >= 3000) {
 		// runaway (a correct loop invokes every handler once, scripts have < 200 handlers): stop the case
@@ -106,7 +110,7 @@ void on_run(long long k, error_code const &e)
 		C->srv->stop();
 		return;
 	}
-	C->log.push_back(itos(k) + ":" + code_name(e) + "@" + itos(C->vms));
+	C->log.push_back(itos(k) + ":" + code + "@" + itos(C->vms));
 	C->pending_posts.erase(k);
 	C->ran.insert(k);
 	std::map<long long, std::vector<Op> >::iterator p = C->bodies.find(k);
@@ -115,11 +119,19 @@ void on_run(long long k, error_code const &e)
 		exec_ops(ops);
 	}
 }
+void on_run(long long k, error_code const &e) { on_run_s(k, code_name(e)); }
 
 struct HPost { long long k; void operator()() const { on_run(k, error_code()); } };
 struct HEv { long long k; void operator()(error_code const &e) const { on_run(k, e); } };
 
 struct HIo { long long k; void operator()(error_code const &e, size_t n) const { on_run(k, n == 5 ? e : error_code(99, booster::system::system_category())); } };
+
+// user handler of stream_socket::async_read_some / async_write_some: success must come with a positive byte count, failure with 0
+struct HXfer { long long k; void operator()(error_code const &e, size_t n) const
+	{ on_run(k, (!e && n == 0) ? error_code(98, booster::system::system_category()) : (e && n != 0) ? error_code(97, booster::system::system_category()) : e); } };
+char xfer_buf[8192];
+// user handler of stream_socket::async_read / async_write (reader_all / writer_all): the byte count is part of the result
+struct HAll { long long k; char *buf; void operator()(error_code const &e, size_t n) const { on_run_s(k, code_name(e) + "/" + itos((long long)n)); } };
 
 ptime abs_time(long long ms) { return ptime::milliseconds(BASE_SEC * 1000 + ms); }
 
@@ -171,6 +183,7 @@ void exec_op(Op const &o)
 			// deadline_timer keeps its slot id until the handler has run and slot ids are recycled)
 			if(!c.cancelled.count(o.a) && !c.ran.count(o.a) && c.tdeadline[o.a] > c.vms) {
 				c.cancelled.insert(o.a);
+				c.tgone.insert(o.a);
 				c.dts[o.a]->cancel();
 			}
 		}
@@ -180,8 +193,10 @@ void exec_op(Op const &o)
 			for(std::map<long long, int>::iterator p = c.rawid.begin(); p != c.rawid.end(); ++p)
 				if(p->first != o.a && p->second == id && c.raworder[p->first] > c.raworder[o.a])
 					alias = true;
-			if(!alias)
+			if(!alias) {
+				c.tgone.insert(o.a);
 				c.srv->cancel_timer_event(id);
+			}
 		}
 	}
 	else if(t == "I" || t == "O") {
@@ -189,6 +204,22 @@ void exec_op(Op const &o)
 		c.subs.push_back(itos(o.a) + ":" + (t == "I" ? "i" : "o") + itos(f));
 		HEv h = { o.a };
 		if(t == "I") c.dev[f]->on_readable(h); else c.dev[f]->on_writeable(h);
+	}
+	else if(t == "RS" || t == "WS") {
+		f = int(o.b);
+		c.subs.push_back(itos(o.a) + ":" + (t == "RS" ? "r" : "w") + itos(f));
+		HXfer h = { o.a };
+		if(t == "RS") c.dev[f]->async_read_some(aio::buffer(xfer_buf, sizeof(xfer_buf)), h);
+		else c.dev[f]->async_write_some(aio::buffer(static_cast<char const *>(xfer_buf), 1), h);
+	}
+	else if(t == "RA" || t == "WA") {
+		f = int(o.b);
+		c.subs.push_back(itos(o.a) + ":" + (t == "RA" ? "R" : "W") + itos(f) + "." + itos(o.c));
+		char *buf = new char[16]();   // lives until the end of the case (the operation may complete at any later time)
+		c.bufs.push_back(buf);
+		HAll h = { o.a, buf };
+		if(t == "RA") c.dev[f]->async_read(aio::buffer(buf, size_t(o.c)), h);
+		else c.dev[f]->async_write(aio::buffer(static_cast<char const *>(buf), size_t(o.c)), h);
 	}
 	else if(t == "CF") {
 		c.dev[f]->cancel();
@@ -213,7 +244,9 @@ void exec_op(Op const &o)
 		if(!c.closedB[f]) { char buf[4096]; while(::read(c.fb[f], buf, sizeof(buf)) > 0) ; }
 	}
 	else if(t == "K") {
-		if(!c.closedB[f]) { ::close(c.fb[f]); c.closedB[f] = true; }
+		// the peer reads what it was sent and then closes: an orderly shutdown (closing with unread input would reset the connection,
+		// and a later read on side A would fail with ECONNRESET instead of reporting end of file)
+		if(!c.closedB[f]) { char buf[4096]; while(::read(c.fb[f], buf, sizeof(buf)) > 0) ; ::close(c.fb[f]); c.closedB[f] = true; }
 	}
 	else if(t == "A") {
 		c.vms += o.a;
@@ -234,6 +267,7 @@ bool hooked() { return c17_virtual && C && C->in_run && pthread_equal(pthread_se
 void before_poll()
 {
 	Case &c = *C;
+	c.poll_vms = c.vms;   // the virtual time at which the loop computed its timeout (phase operations may advance the clock)
 	if(++c.polls > 20000) {
 		c.flags.insert("LIVELOCK");
 		c.stage = 2;
@@ -253,6 +287,11 @@ void nothing_ready(int timeout)
 	if(timeout == 0) return;
 	// stop() was called while the loop polled and the loop is about to sleep: its wake-up was lost
 	if(c.stop_pending) c.flags.insert("LOSTWAKE");
+	// the loop is about to sleep for `timeout` ms: no armed timer may have its deadline inside that sleep (property oracle for the
+	// timer half of the wake-up: the timeout computation of run_one and the wake() of set_timer_event while polling_)
+	for(std::map<long long, long long>::iterator p = c.tdeadline.begin(); p != c.tdeadline.end(); ++p)
+		if(!c.ran.count(p->first) && !c.tgone.count(p->first) && p->second < c.poll_vms + (long long)timeout)
+			c.flags.insert("SLEPTPAST");
 	if(timeout > 0 && timeout < IDLE_MS) { c.vms += timeout; return; }
 	// the loop would now block "for ever": nothing queued, no timer
 	if(!c.pending_posts.empty()) c.flags.insert("LOSTWAKE");
@@ -287,6 +326,19 @@ extern "C" int gettimeofday(struct timeval *tv, void *tz) __THROW
 	tv->tv_sec = ms / 1000;
 	tv->tv_usec = (ms % 1000) * 1000;
 	return 0;
+}
+
+// stream_socket::write_some -> ::writev: whatever the library writes on a script descriptor is consumed by the peer at once, so the
+// (deliberately small) send buffer is "full" exactly when the script filled it (F) and did not drain it (D) - otherwise a few
+// one-byte writes that nobody reads make the descriptor unwritable (AF_UNIX accounts a whole skb per write)
+extern "C" ssize_t writev(int fd, const struct iovec *iov, int cnt)
+{
+	ssize_t r = syscall(SYS_writev, fd, iov, cnt);
+	if(c17_virtual && C && r > 0) {
+		int ix = idx_of(fd);
+		if(ix >= 0 && !C->closedB[ix]) { char buf[4096]; while(::read(C->fb[ix], buf, sizeof(buf)) > 0) ; }
+	}
+	return r;
 }
 
 extern "C" int poll(struct pollfd *fds, nfds_t n, int timeout)
@@ -384,12 +436,14 @@ bool parse(std::vector<std::string> const &tok, Case &c, std::string &err)
 		if(t == "]") { in_body = false; cur = 0; i++; continue; }
 		if(t == "X") ar = 0;
 		else if(t == "P" || t == "PE" || t == "PI" || t == "CT" || t == "CF" || t == "CL" || t == "W" || t == "R" || t == "F" || t == "D" || t == "K" || t == "A") ar = 1;
-		else if(t == "T" || t == "U" || t == "I" || t == "O") ar = 2;
+		else if(t == "T" || t == "U" || t == "I" || t == "O" || t == "RS" || t == "WS") ar = 2;
+		else if(t == "RA" || t == "WA") ar = 3;
 		if(ar < 0 || !cur) { err = "op " + t; return false; }
 		if(i + ar > tok.size() - 1) { err = "arity " + t; return false; }
-		Op o; o.t = t; o.a = ar >= 1 ? atoll(tok[i + 1].c_str()) : 0; o.b = ar >= 2 ? atoll(tok[i + 2].c_str()) : 0;
+		Op o; o.t = t; o.a = ar >= 1 ? atoll(tok[i + 1].c_str()) : 0; o.b = ar >= 2 ? atoll(tok[i + 2].c_str()) : 0; o.c = ar >= 3 ? atoll(tok[i + 3].c_str()) : 0;
 		bool fdop1 = (t == "CF" || t == "CL" || t == "W" || t == "R" || t == "F" || t == "D" || t == "K");
-		bool fdop2 = (t == "I" || t == "O");
+		bool fdop2 = (t == "I" || t == "O" || t == "RS" || t == "WS" || t == "RA" || t == "WA");
+		if((t == "RA" || t == "WA") && (o.c < 1 || o.c > 8)) { err = "byte count"; return false; }
 		long long f = fdop2 ? o.b : fdop1 ? o.a : 0;
 		if((fdop1 || fdop2) && (f < 0 || f >= c.nfd)) { err = "fd index"; return false; }
 		cur->push_back(o);
@@ -410,7 +464,7 @@ std::string loop_case(std::vector<std::string> const &tok)
 {
 	Case c;
 	std::string err;
-	c.srv = 0; c.next_phase = 0; c.vms = 100000; c.stop_pending = false; c.stage = 0; c.mark = 0; c.polls = 0; c.nops = 0; c.in_run = false; c.order = 0;
+	c.srv = 0; c.next_phase = 0; c.vms = 100000; c.poll_vms = 100000; c.stop_pending = false; c.stage = 0; c.mark = 0; c.polls = 0; c.nops = 0; c.in_run = false; c.order = 0;
 	for(int i = 0; i < 4096; i++) c.idx_of_fd[i] = -1;
 	if(!parse(tok, c, err)) return "loop BAD-CASE " + err;
 	C = &c;
@@ -451,6 +505,9 @@ std::string loop_case(std::vector<std::string> const &tok)
 			// stopped by the script: reset and run again; the next phase executes in between (no reactor)
 			c.srv->reset();
 			c.pending_posts.clear();   // reset() discards the dispatch queue
+			// ... including handlers of timers that were already due: they are out of the timer table and will never run
+			for(std::map<long long, long long>::iterator p = c.tdeadline.begin(); p != c.tdeadline.end(); ++p)
+				if(p->second <= c.vms) c.tgone.insert(p->first);
 			if(c.next_phase < c.phases.size())
 				exec_ops(std::vector<Op>(c.phases[c.next_phase++]));
 		}
@@ -472,6 +529,7 @@ std::string loop_case(std::vector<std::string> const &tok)
 		if(!c.closedB[f]) ::close(c.fb[f]);
 	}
 	delete c.srv;
+	for(size_t i = 0; i < c.bufs.size(); i++) delete [] c.bufs[i];
 	C = 0;
 	return out;
 }
@@ -493,6 +551,7 @@ int main()
 		else if(tok[0] == "loop") out = loop_case(tok);
 		else if(tok[0] == "pool") out = c17_pool_case(tok);
 		else if(tok[0] == "pstress") out = c17_pool_stress(tok);
+		else if(tok[0] == "pstop") out = c17_pool_stop_stress(tok);
 		else if(tok[0] == "lstress") out = c17_loop_stress(tok);
 		else out = "BAD-CASE";
 		std::cout << out << "\n" << std::flush;
